@@ -96,6 +96,9 @@ def frame_classes(ctx, tgt):
 def plan(tier):
     jobs = []
     n = 8 if tier == "quick" else 32
+    for kind in ("rr", "unit"):
+        for lo in range(0, 1600, 400):
+            jobs.append({"part": "lengths", "kind": kind, "lo": lo, "hi": lo + 400})
     for i in range(n):
         jobs.append({"part": "direct", "examples": 500 if tier == "quick" else 4000})
         jobs.append({"part": "scenario", "op": ["read", "write"][i % 2], "examples": 60 if tier == "quick" else 700})
@@ -104,6 +107,17 @@ def plan(tier):
 
 
 def run_job(ctx, job):
+    if job["part"] == "lengths":
+        # every payload length 0..1599 for both data-carrying commands (a single bad length cannot hide)
+        for n in range(job["lo"], job["hi"]):
+            c = {"kind": job["kind"], "session": 0x01020304 + n, "cid": 0xA0B0C0D0 ^ n, "ctx": b"ctx-%04d" % (n % 10000), "payload": bytes((7 * i + n) & 0xFF for i in range(n)),
+                 "service": 0x4C, "cls": 0x6B, "inst": 1 + (n % 3) * 300, "seq": (n * 37) & 0xFFFF}
+            discs = check_direct(c)
+            ctx.case(("len", job["kind"], n), n > 0, ["direct", "direct-length-sweep"])
+            for d in discs:
+                ctx.violation(d, "direct", c)
+        ctx.exhaustive_parts.append("payload lengths 0..1599 of SendRRData / SendUnitData")
+        return
     if job["part"] == "direct":
         hyp_search(ctx, "direct", direct_cases(), lambda c: (check_direct(c), c["kind"] in ("rr", "unit") and len(c["payload"]) > 0, ["direct", "direct." + c["kind"]]),
                    job["examples"])
